@@ -115,6 +115,10 @@ ustr present_value_text(const ustr &s, Pres p, Rng &r) {
 
 // ------------------------------------------------------------------------------------------------ generation
 static ustr pick_variant(Rng &r, const std::vector<NameClass> &pool, size_t cls) { const NameClass &c = pool[cls % pool.size()]; return c.variants[r.below(c.variants.size())]; }
+// names and codes at the length limits (data name: 2048 characters, block / frame code: 2043), now and then, when the
+// configuration asks for long tokens: the parser's line-length accounting and token buffering at the limit
+static ustr long_item_name(Rng &r) { static const size_t L[] = { 2048, 2047, 2046, 2040, 1500 }; size_t n = L[r.below(5)]; ustr s = U("_long"); s += (char16_t) ('0' + r.below(10)); while (s.size() < n) s += (char16_t) ('a' + s.size() % 26); return s; }
+static ustr long_code(Rng &r) { static const size_t L[] = { 2043, 2042, 2041, 2030, 1200 }; size_t n = L[r.below(5)]; ustr s = U("lc"); s += (char16_t) ('0' + r.below(10)); while (s.size() < n) s += (char16_t) ('a' + s.size() % 26); return s; }
 static void fix_keys(MValue &v) {
     // table keys must have a quoted or triple-quoted presentation
     for (auto &e : v.elems) fix_keys(e);
@@ -156,19 +160,21 @@ static void gen_items(Rng &r, const DocCfg &c, std::vector<DItem> &items, std::s
         unsigned w = (unsigned) r.below(100);
         if (w < 55) {
             size_t cls = (size_t) r.below(item_pool().size()); ustr nm = pick_variant(r, item_pool(), cls);
+            if (c.long_tokens && r.chance(1, 12)) nm = long_item_name(r);
             if (!used_names.insert(mnorm(nm)).second) continue;
             if (c.version < 2) { bool ascii = true; for (char16_t ch : nm) if (ch > 0x7e) ascii = false; if (!ascii) { used_names.erase(mnorm(nm)); continue; } }
             DItem it; it.kind = D_SCALAR; it.name = nm; it.value = doc_value(r, c); items.push_back(it);
         } else if (w < 85) {
             DItem it; it.kind = D_LOOP;
             int nn = (int) r.range(1, c.max_loop_names);
-            for (int k = 0; k < nn; ++k) { size_t cls = (size_t) r.below(item_pool().size()); ustr nm = pick_variant(r, item_pool(), cls); bool ascii = true; for (char16_t ch : nm) if (ch > 0x7e) ascii = false; if (c.version < 2 && !ascii) continue; if (used_names.insert(mnorm(nm)).second) it.names.push_back(nm); }
+            for (int k = 0; k < nn; ++k) { size_t cls = (size_t) r.below(item_pool().size()); ustr nm = pick_variant(r, item_pool(), cls); if (c.long_tokens && r.chance(1, 16)) nm = long_item_name(r); bool ascii = true; for (char16_t ch : nm) if (ch > 0x7e) ascii = false; if (c.version < 2 && !ascii) continue; if (used_names.insert(mnorm(nm)).second) it.names.push_back(nm); }
             if (it.names.empty()) continue;
             int np = (int) r.range(1, c.max_packets);
             for (int p = 0; p < np; ++p) { std::vector<MValue> row; for (size_t k = 0; k < it.names.size(); ++k) row.push_back(doc_value(r, c)); it.packets.push_back(row); }
             items.push_back(it);
         } else if (allow_frames && c.frames) {
             DItem it; it.kind = D_FRAME; size_t cls = (size_t) r.below(code_pool().size()); it.code = pick_variant(r, code_pool(), cls);
+            if (c.long_tokens && r.chance(1, 10)) it.code = long_code(r);
             if (c.version < 2) { bool ascii = true; for (char16_t ch : it.code) if (ch > 0x7e) ascii = false; if (!ascii) continue; }
             if (!used_codes.insert(mnorm(it.code)).second) continue;
             std::set<ustr> inner; gen_items(r, c, it.items, inner, false);
@@ -182,6 +188,7 @@ Doc gen_doc(Rng &r, const DocCfg &c) {
     std::set<ustr> codes;
     for (int i = 0; i < nb; ++i) {
         DBlock b; size_t cls = (size_t) r.below(code_pool().size()); b.code = pick_variant(r, code_pool(), cls);
+        if (c.long_tokens && r.chance(1, 10)) b.code = long_code(r);
         if (c.version < 2) { bool ascii = true; for (char16_t ch : b.code) if (ch > 0x7e) ascii = false; if (!ascii) continue; }
         if (!codes.insert(mnorm(b.code)).second) continue;
         std::set<ustr> names; gen_items(r, c, b.items, names, true);
